@@ -64,6 +64,19 @@ def check_case(rep, case, name):
         if raised is None: rep.dev(name, dict(case, ks=[k]), 'evaluation %d of %d failed but write() returned normally' % (k, total), 'the failure propagates'); return
         if size != 0: rep.dev(name, dict(case, ks=[k]), '%d bytes left in the output after a failure at evaluation %d of %d' % (size, k, total), 'empty or absent file'); return
         rep.ok()
+        # the same tabulation object written again after the failure (a caller that retries, or writes to a second file): only
+        # evaluation number k fails, so this write succeeds -- it emits the whole table (or, if it raises, nothing)
+        if not case['target'].startswith('excel'):
+            out2 = io.StringIO(); raised2 = None
+            try: tab.write(out2)
+            except Boom as e: raised2 = e
+            if raised2 is None and out2.getvalue() != '':
+                full = io.StringIO(); build(case, Counter(-1)).write(full)
+                if out2.getvalue() != full.getvalue():
+                    rep.dev(name, dict(case, ks=[k]), 'second write() of the object after a failure at evaluation %d of %d returned normally with %d bytes (the complete table has %d)' % (k, total, len(out2.getvalue()), len(full.getvalue())), 'the whole table or nothing'); return
+            elif raised2 is not None and out2.getvalue() != '':
+                rep.dev(name, dict(case, ks=[k]), 'second write() after a failure left %d bytes' % len(out2.getvalue()), 'nothing'); return
+            rep.ok()
 
 def gen_case(rng, target=None):
     target = target or rng.choice(TARGETS)
